@@ -152,6 +152,7 @@ def run(tier, seed):
                         for quirk in (("negpow_sign",), ("natural_as_signed",), ("negpow_sign", "natural_as_signed")):
                             X.QUIRKS = set(quirk)
                             X.QUIRK_HIT = set()
+                            X.MAXMAG[0] = 0.0
                             try:
                                 alt = X.evaluate(e)
                             except Exception:
@@ -164,7 +165,9 @@ def run(tier, seed):
                                 same = (alt is X.NOVALUE) and (kind == "novalue")
                             elif kind == "real":
                                 got = struct.unpack("<d", struct.pack("<Q", int(val, 16)))[0]
-                                same = isinstance(alt, float) and ulps(got, alt) <= 4
+                                # same tolerance as the main comparison (association of a+b-c around the quirk's value)
+                                same = isinstance(alt, float) and (ulps(got, alt) <= 4 or
+                                                                   abs(got - alt) <= 8 * 2.3e-16 * max(X.MAXMAG[0], abs(alt)))
                             else:
                                 same = (not isinstance(alt, float)) and int(val) == int(alt)
                             if same:
